@@ -131,6 +131,12 @@ func (c *cbLog) snapshot() (recs []cbRec, ninit, initAt int, overlap, afterDone 
 	return append([]cbRec(nil), c.recs...), c.ninit, c.initAt, c.overlap, c.afterDone
 }
 
+func (c *cbLog) totalCallbacks() int {
+	c.mu.Lock()
+	defer c.mu.Unlock()
+	return c.total
+}
+
 func (c *cbLog) block() {
 	c.mu.Lock()
 	if c.gate == nil {
